@@ -147,6 +147,12 @@ TSegCall ==
               <<OrderedC(C), "C03", "segments_not_ordered">>,
               <<E.level0 = 1 => FirstOccFedC(C, data), "C03", "first_occurrence_not_fed">>,
               <<(HasLines(E) /\ Offset) => WithinEpsAllC(E, C), "C03", "point_farther_than_eps_from_reported_line">>,
+              \* any key magnitude: res2[s] = <<floor(2 |line(x) - y|) at the segment's worst point, exact?, points>> (computed by the
+              \* recorder in 128-bit integers from the canonical segment); within eps + 1/2 is decided here
+              <<("res2" \in DOMAIN E) => /\ Len(E.res2) = nsegs
+                                          /\ \A s \in 1..Len(E.res2) : \/ E.res2[s][1] < 2 * E.eps + 1
+                                                                       \/ (E.res2[s][1] = 2 * E.eps + 1 /\ E.res2[s][2] = 1),
+                "C03", "point_farther_than_eps_from_reported_line_wide">>,
               <<(Offset /\ E.level0 = 1) => \A j \in 1..Len(C) : FeasibleCallC(C[j], E.eps), "C03", "accepted_points_admit_no_line">>,
               <<(HasLines(E) /\ E.ret >= 0) => E.ret = nsegs /\ Len(E.segs) = nsegs, "C04", "returned_count_differs">>,
               <<(Offset /\ E.level0 = 1) => \A j \in 1..Len(C) : MaximalCallC(C[j], E.eps), "C04", "segment_not_maximal">>,
@@ -156,7 +162,8 @@ TSegCall ==
               <<SmallForOptimum(E) => (IF c = 1 THEN nsegs = SeqOptimum(data, E.eps) ELSE nsegs <= SeqOptimum(data, E.eps) + c - 1),
                 "C04", "segment_count_not_minimal">>,
               <<(E.level0 = 1 /\ B.out = "ok" /\ R.cls = "PGMIndex" /\ E.src = "index") => B.nsegs <= nsegs + 1, "C04", "segments_count_mismatch">> >>, 1)
-        /\ cnt' = [cnt EXCEPT !.segcalls = @ + 1, !.oracle_segments = @ + (IF Offset /\ E.level0 = 1 THEN OracleSegsC(C) ELSE 0)]
+        /\ cnt' = [cnt EXCEPT !.segcalls = @ + 1, !.oracle_segments = @ + (IF Offset /\ E.level0 = 1 THEN OracleSegsC(C) ELSE 0),
+                              !.within_eps_points = @ + (IF "res2" \in DOMAIN E THEN SumLens(E.res2, LAMBDA r : r[3]) ELSE 0)]
   /\ segSeen' = TRUE
   /\ UNCHANGED <<x, R, data, B, ndrift, done>>
 
